@@ -123,26 +123,27 @@ def aq_drop(ctx):
     else:
         out.append(ok('AQ-drop', 'writes', 'moves %s to Panicked' % sorted(s for s, _ in writes), fn=fn.name))
     # the marking is dominated by the true edge of thread::panicking()
-    pan_true, pan_false = None, None
+    from .ordq import result_edges
+    from .rules_lw import FieldUse
+    from .proto import JQC
+    pan_true = None
     for bb, t in fn.calls():
-        if (t['func'].get('fn') or '').endswith('thread::functions::panicking') or (t['func'].get('fn') or '').endswith('thread::panicking'):
-            sw = fn.blocks[t['target']]['term'] if t['target'] is not None else None
-            if sw and sw['k'] == 'switch':
-                pan_true = sw['otherwise']
-                pan_false = [b for v, b in sw['targets'] if v == '0']
-    mark_blocks = []
+        if (t['func'].get('fn') or '').endswith('::panicking'):
+            e = result_edges(fn, bb)
+            if e:
+                pan_true = e.get('otherwise')
+    # where the queue is marked: writes of the state in this function, or calls handing the guard to a closure that writes it
+    mark_blocks = [bb for (bb, i, v) in FieldUse(fn, JQC).assigns.get('state', [])]
     for bb, t in fn.calls():
         for a in t['args']:
             if a['k'] in ('move', 'copy') and AQ_DROP + '::{closure' in clean_ty(a['pl']['ty']):
                 mark_blocks.append(bb)
     if pan_true is None or not mark_blocks:
-        out.append(undecided('AQ-drop', 'panicking-edge', 'shape not recognised (no thread::panicking() test or no marking closure)', fn=fn.name))
+        out.append(undecided('AQ-drop', 'panicking-edge', 'shape not recognised (no thread::panicking() test or no marking site)', fn=fn.name))
+    elif all(edom(fn, pan_true, b) for b in mark_blocks):
+        out.append(ok('AQ-drop', 'panicking-edge', 'the queue is marked only when thread::panicking()', fn=fn.name))
     else:
-        dom = fn.dominators()
-        if all(edom(fn, pan_true, b) for b in mark_blocks):
-            out.append(ok('AQ-drop', 'panicking-edge', 'the queue is marked only when thread::panicking()', fn=fn.name))
-        else:
-            out.append(bad('AQ-drop', 'panicking-edge', 'ActiveQueue::drop marks the queue Panicked on a path where the thread is not panicking', fn=fn.name))
+        out.append(bad('AQ-drop', 'panicking-edge', 'ActiveQueue::drop marks the queue Panicked on a path where the thread is not panicking', fn=fn.name))
     return out
 
 
